@@ -49,6 +49,7 @@ type Prog struct {
 
 	lineMaps map[string][]int // rewritten file -> (new line -> original line)
 	Norm     *NormInfo        // what the normalisation pre-pass did (nil: not normalised)
+	Written  *Prog            // the program as written, before normalisation (nil: this one)
 }
 
 // ReadFile reads a file of the analysed tree (path relative to the repository
